@@ -233,6 +233,16 @@ Section Simp.
     | CVCG _ uff kr ki => uff       (* use_full_fisher = False: see C04_metric_refuted *)
     end.
 
+  (* c_1 * ... * c_k * (GaussianEnergy @ op): the family for which the metric theorem is proved *)
+  Fixpoint gchain (h : cen) : bool :=
+    match h with CGauss _ _ _ _ => true | CScale _ h => gchain h | _ => false end.
+
+  (* metric of a Linearization applied to a direction (a0 when there is no metric), and its presence *)
+  Definition metapp (wm : bool) (h : cen) (r d : env) : env :=
+    match snd (linC wm h r) with Some M => mapply A a0 aadd amul M d | None => fun _ _ => a0 end.
+  Definition has_met (wm : bool) (h : cen) (r : env) : bool :=
+    match snd (linC wm h r) with Some _ => true | None => false end.
+
   Fixpoint cshape (K : nat) (h : cen) : bool :=
     match h with
     | CGauss n _ _ e => match eshape A P K dims e with Some m => m =? n | None => false end
